@@ -318,7 +318,10 @@ def check_marg(case, ctx):
             return
         if ok:
             got = np.asarray(got, dtype=float)
-            if got.shape != rp.shape or not close(got, rp, 1e-5, 1e-7).all():
+            # nquad's accuracy on integrands with a jump / kink inside the range (a dependent Weibull location
+            # crossing x, a conditioner whose support starts above 0) is 1e-5 .. 1e-4 relative (observed 2e-5, 7e-5);
+            # a wrong factor, argument order or limit is an O(1e-2 .. 1) error
+            if got.shape != rp.shape or not close(got, rp, 2e-4, 1e-7).all():
                 ctx.violation(f"marginal_pdf:{label}:{'cond' if conditional else 'uncond'}", f"dim={dim} x={np.asarray(arg).tolist()} got={got.tolist()} reference={rp.tolist()} conditional_on={[l.get('conditional_on') for l in spec]}")
         if label == "int":
             continue  # marginal_cdf costs seconds per point: one float point only
@@ -330,7 +333,7 @@ def check_marg(case, ctx):
             return
         if ok:
             got = np.asarray(got, dtype=float)
-            if got.shape != rc[:1].shape or not close(got, rc[:1], 1e-5, 2e-6).all():
+            if got.shape != rc[:1].shape or not close(got, rc[:1], 2e-4, 2e-6).all():
                 ctx.violation(f"marginal_cdf:{label}:{'cond' if conditional else 'uncond'}", f"dim={dim} x={np.asarray(arg[:1]).tolist()} got={got.tolist()} reference={rc[:1].tolist()} conditional_on={[l.get('conditional_on') for l in spec]}")
     # marginal_icdf
     ps = np.array(sorted(case["ps"]), dtype=float)
